@@ -24,7 +24,7 @@ def _is_conf_key(e: ast.expr, f: FuncInfo) -> bool:
     return norm_text(e).replace('"', "'") == KEY
 
 
-def flip_unit(ctx, p, key: str, data_param: Optional[str]) -> Optional[int]:
+def flip_unit(ctx, p, key: str, data_param: Optional[str], units: Optional[Dict[str, int]] = None) -> Optional[int]:
     """A function that flips its data exactly once (np.flipud) under the DS9 config key and not at all otherwise.
     Returns 1 if so, 0 if the function contains no flip at all, None (and a finding) otherwise."""
     rule = "C16.flip-unit"
@@ -32,7 +32,9 @@ def flip_unit(ctx, p, key: str, data_param: Optional[str]) -> Optional[int]:
     flips = [c for c in f.calls() if norm_text(c.func) in ("np.flipud", "numpy.flipud", "np.flip", "numpy.flip")]
     rev = [n for n in f.body_nodes() if isinstance(n, ast.Subscript) and "::-1" in norm_text(n.slice)]
     if not flips and not rev:
-        return 0
+        # no flip of its own: what it applies is what the flip units it calls apply (a 1-D writer that delegates to the 2-D HDU writer flips once)
+        via = count_flips(p, f, units or {})
+        return via if via is not None else 0
     # decided on the name-free path summaries (sa/paths.py; new helpers such as a `_flip_for_ds9()` predicate are looked into): on every returning path the value carries
     # exactly one np.flipud when the DS9 key holds and none when it does not, and the two values differ in nothing else
     PS = paths.path_summaries(f, project=p)
@@ -116,7 +118,7 @@ def run(ctx):
     units: Dict[str, int] = {}
     for key, dp in ((f"{A2}:hdu_for_output_from", "array_2d"), (f"{A2}:numpy_array_2d_via_fits_from", None), ("autoarray.abstract_ndarray:AbstractNDArray.flip_hdu_for_ds9", "values"),
                     (f"{A1}:hdu_for_output_from", "array_1d"), (f"{A1}:numpy_array_1d_via_fits_from", None)):
-        u = flip_unit(ctx, p, key, dp)
+        u = flip_unit(ctx, p, key, dp, units)
         if u is not None:
             units[key] = u
     want_units = {f"{A2}:hdu_for_output_from": 1, f"{A2}:numpy_array_2d_via_fits_from": 1, "autoarray.abstract_ndarray:AbstractNDArray.flip_hdu_for_ds9": 1,
@@ -183,7 +185,7 @@ def run(ctx):
                 ctx.ob("C16.sinks", f"{f.key}:writeto", f.key in allowed_wt, where=f, node=c, construct=norm_text(c)[:100], message="a FITS file is written outside the file writer utils")
                 ow = wire.kw(c).get("overwrite")
                 ctx.ob("C16.overwrite", f"{f.key}:writeto-overwrite", ow is None or (isinstance(ow, ast.Constant) and ow.value is False), where=f, node=c, construct=norm_text(c)[:100], message="writeto must not overwrite by itself: an existing path must fail unless overwrite was requested")
-    ctx.require_count("C16.sinks", "functions constructing a PrimaryHDU", len(hdu_funcs), 2)
+    ctx.require_count("C16.sinks", "functions constructing a PrimaryHDU", len(hdu_funcs), 1)
     ctx.require_count("C16.sinks", "writeto calls", n_w, 2)
     # ---- overwrite / directories
     for wk in allowed_wt:
